@@ -83,6 +83,8 @@ pub struct KeyModel {
     /// a remove was issued while a write of this key was still in flight (see DESIGN C01 finding);
     /// names the shape of the race
     pub race: Option<&'static str>,
+    /// values whose disk write failed and whose failure notification has not been handled yet
+    pub failed_pending: Vec<u32>,
 }
 
 impl KeyModel {
@@ -97,6 +99,7 @@ impl KeyModel {
             file: FileState::Absent,
             disk_err_armed: false,
             race: None,
+            failed_pending: vec![],
         }
     }
 }
